@@ -1,4 +1,9 @@
 mod atree;
+mod bfs;
+mod histcommon;
+mod inv;
+mod mforest;
+mod world;
 mod common;
 mod gen;
 mod nsscope;
@@ -61,6 +66,9 @@ fn main() {
     }
     let code = dispatch!(
         "C01" => c01,
+        "C04" => c04,
+        "C05" => c05,
+        "C06" => c06,
         "C07" => c07,
         "C09" => c09,
         "C13" => c13,
